@@ -292,6 +292,15 @@ func runC18(ctx *Ctx) {
 			for k := rng.Intn(3); k > 0; k-- {
 				rd.Invalid = append(rd.Invalid, genPoolRef(rng))
 			}
+			if rng.Intn(8) == 0 { // a big clean-out: more peers to drop in one round than fit a log line
+				for k := 9 + rng.Intn(8); k > 0; k-- {
+					rd.Invalid = append(rd.Invalid, "enode://"+fmt.Sprintf("%0128x", 0xd0000+k+r*100)+"@10.7.0.1:30303")
+				}
+				for k := 4 + rng.Intn(6); k > 0; k-- {
+					rd.Locals = append(rd.Locals, ethnode.PeerInfo{ID: fmt.Sprintf("%0128x", 0xe0000+k+r*100)})
+					rd.Locals[len(rd.Locals)-1].Network.RemoteAddress = "10.7.1.1:30303"
+				}
+			}
 			rd.UpdErr = rng.Intn(10) == 0
 			rd.NodeErr = rng.Intn(14) == 0
 			rd.DropErr = rng.Intn(8) == 0
